@@ -4,6 +4,7 @@ import (
 	"bytes"
 	"encoding"
 	"fmt"
+	"reflect"
 	"unicode"
 	"unicode/utf16"
 	"unicode/utf8"
@@ -70,7 +71,7 @@ func (d *unmarshalTextDecoder) DecodeStream(s *Stream, depth int64, p unsafe.Poi
 			}
 		case 'n':
 			if bytes.Equal(src, nullbytes) {
-				*(*unsafe.Pointer)(p) = nil
+				d.setNull(p)
 				return nil
 			}
 		}
@@ -123,7 +124,7 @@ func (d *unmarshalTextDecoder) Decode(ctx *RuntimeContext, cursor, depth int64, 
 			}
 		case 'n':
 			if bytes.Equal(src, nullbytes) {
-				*(*unsafe.Pointer)(p) = nil
+				d.setNull(p)
 				return end, nil
 			}
 		}
@@ -141,6 +142,19 @@ func (d *unmarshalTextDecoder) Decode(ctx *RuntimeContext, cursor, depth int64, 
 		return 0, err
 	}
 	return end, nil
+}
+
+// setNull handles JSON null for a TextUnmarshaler destination the way
+// encoding/json does: pointers, maps, slices and interfaces become nil, any
+// other destination is left as it is. (A pointer-sized nil store into the
+// destination, whatever its type, overwrote the first word of structs and
+// strings and wrote beyond destinations smaller than a pointer.)
+func (d *unmarshalTextDecoder) setNull(p unsafe.Pointer) {
+	typ := runtime.RType2Type(d.typ).Elem()
+	switch typ.Kind() {
+	case reflect.Ptr, reflect.Map, reflect.Slice, reflect.Interface:
+		reflect.NewAt(typ, p).Elem().Set(reflect.Zero(typ))
+	}
 }
 
 func (d *unmarshalTextDecoder) DecodePath(ctx *RuntimeContext, cursor, depth int64) ([][]byte, int64, error) {
